@@ -716,6 +716,13 @@ def replay_literal(exe, failures):
         got = out[0]
         rec = {"label": f["label"], "text": sc["text"], "expected": exp, "native": got}
         tried.append(rec)
+        if "error" in got and got.get("at") is not None:
+            # a syntax error points inside the source or immediately at the end of one of its lines
+            lines = sc["text"].split("\n")
+            l, c = got["at"]
+            if not (l < len(lines) and c <= len(lines[l])):
+                rec["reproduced"] = True
+                return {"status": "reproduced", "summary": f"literal {sc['text']!r}: the syntax error is reported at line {l}, column {c}, outside the source", "attempts": tried}
         if "error" in exp:
             ok = "error" in got
         else:
